@@ -23,7 +23,9 @@ RULE = ("histories of 5-40 operations from {randomize (same or NEW antenna "
         "ones read random single views so that read->mutate->read patterns "
         "hit each lazy cache separately.  Signature = (object kind, K, "
         "operation bigram); non-trivial = a view read or a transmission that "
-        "follows at least one mutation.")
+        "follows at least one mutation.  "
+        "Path-loss matrices also come with integer dtype (all ones, 0/1 masks) "
+        "next to fractional external-interference path loss. ")
 ASSUMPTIONS = ["post filters are square (Nr_k x Nr_k): the per-receiver split "
                "by antenna count is then unambiguous",
                "the number of users is not changed while a path loss is in "
